@@ -16,14 +16,14 @@ def succs(fn, bb, disabled=None, unwind=False):
 
 def reachable(fn, start, disabled=None, blocked=None, unwind=False):
     """Blocks reachable from `start` (iterable or single) without entering a block in `blocked`
-    (the start blocks themselves are included even if blocked is given for others)."""
+    (a start block that is itself blocked is not entered either)."""
     if isinstance(start, int):
         start = [start]
     blocked = blocked or set()
     seen = set()
     dq = deque()
     for s in start:
-        if s not in seen:
+        if s not in seen and s not in blocked:
             seen.add(s)
             dq.append(s)
     while dq:
